@@ -103,7 +103,7 @@ theorem lockedWrite_setEvents (s : Sys) (m : OSet) (f : OSet → OSet) :
 /-- a status update appends exactly one `statusUpdate` event carrying the in-memory status. -/
 theorem updateStatus_setEvents (s : Sys) (mem : OSet) :
     ∃ r, (s.updateStatus mem).1.setEvents =
-      s.setEvents ++ [.statusUpdate mem.name r mem.revision mem.conds mem.controllerOf] := by
+      s.setEvents ++ [.statusUpdate mem.name r mem.revision mem.conds mem.controllerOf mem.remotePhases] := by
   simp only [Sys.updateStatus]
   split
   · exact ⟨none, by simp [lockedWrite_setEvents]⟩
